@@ -124,3 +124,19 @@ def return_expr_single_path_allow(fn):
         bi, si, x = d[0]
         return R.call(x) if si == 'term' else R.rvalue(x)
     return None
+
+
+def promoted_expr(db, uneval, idx):
+    """Recovered expression of a promoted constant (the value behind the reference)."""
+    from lm.db import short as _s
+    cands = [f for f in db.fns.values() if f.promoted_of and f.path.endswith(f'::promoted[{idx}]')
+             and (_s(f.promoted_of) == _s(uneval) or f.promoted_of == uneval)]
+    if len(cands) != 1:
+        return None
+    f = cands[0]
+    R = X.Rec(f)
+    d = f.defs().get(0, [])
+    if len(d) != 1:
+        return None
+    bi, si, x = d[0]
+    return R.call(x) if si == 'term' else R.rvalue(x)
